@@ -825,7 +825,9 @@ def format_summary(obj: model.Documentable) -> Tag:
     with source.docstring_linker.switch_context(None):
         # ParserErrors will likely be reported by the full docstring as well,
         # so don't spam the log, pass report=False.
-        stan = safe_to_stan(parsed_doc, source.docstring_linker, source, report=False,
+        # The fallback marks the summary of its context as broken: that must be
+        # obj, not the (possibly different) object the docstring is inherited from.
+        stan = safe_to_stan(parsed_doc, source.docstring_linker, obj, report=False,
                 fallback=format_summary_fallback)
 
     return stan
